@@ -164,6 +164,7 @@ func checkC14(c *Ctx, r *Result, tier string) {
 		}
 	}
 	r.Floor("R14-string-runtime", len(targets), 1)
+	c14RawUntouched(c, r)
 	fAllow := c.Field("parser", "LexToken", "AllowEscapes")
 
 	for _, fn := range targets {
@@ -594,4 +595,99 @@ func c14Loop(c *Ctx, r *Result, fn *ssa.Function, rtIface *types.Interface) {
 		}
 	})
 	r.Floor("R14e", nOut, 2)
+}
+
+// ---- R14g: the lexer hands a raw string over as a substring of the input -------------------------
+
+// "A raw string is returned untouched": for a token emitted with AllowEscapes = false the value
+// must be cut out of the input and nothing else — no replacement, unquoting or concatenation on
+// any path that emits it.
+func c14RawUntouched(c *Ctx, r *Result) {
+	lexValue := c.Func("parser", "lexValue")
+	fInput := c.Field("parser", "lexer", "input")
+	if lexValue == nil || fInput == nil {
+		r.Undecide("R14g: parser.lexValue / lexer.input not found")
+		return
+	}
+	key := c.FuncKey(lexValue)
+	n := 0
+	ord := newOrdinals()
+	isInputSlice := func(v ssa.Value) bool {
+		sl, ok := v.(*ssa.Slice)
+		if !ok {
+			return false
+		}
+		ld, ok := sl.X.(*ssa.UnOp)
+		if !ok {
+			return false
+		}
+		fa, ok := ld.X.(*ssa.FieldAddr)
+		return ok && fieldVar(fa) == fInput
+	}
+	type emit struct {
+		call *ssa.Call
+		val  ssa.Value
+		raw  ssa.Value // the allowEscapes argument
+	}
+	var emits []emit
+	allInstrs(lexValue, func(in ssa.Instruction) {
+		call, ok := in.(*ssa.Call)
+		if !ok {
+			return
+		}
+		f := call.Call.StaticCallee()
+		if f == nil || f.Name() != "emitTokenAndValue" {
+			return
+		}
+		args := call.Call.Args // receiver, token id, value, identifier, allowEscapes
+		if len(args) < 5 {
+			return
+		}
+		emits = append(emits, emit{call, args[2], args[4]})
+	})
+	if len(emits) == 0 {
+		r.Undecide("R14g: no emitTokenAndValue call in %s", key)
+		return
+	}
+	bad := map[int]string{}
+	reached := map[int]bool{}
+	o := &PathOracle{}
+	o.Visit = func(st *PState, in ssa.Instruction) {
+		for i, e := range emits {
+			if in != ssa.Instruction(e.call) {
+				continue
+			}
+			// raw on this path?
+			if st.Get(e.raw, o) != AvNil {
+				continue // interpolating (or unknown: decided by the paths where it is known)
+			}
+			reached[i] = true
+			v := st.canon(e.val)
+			if !isInputSlice(v) {
+				if _, dup := bad[i]; !dup {
+					bad[i] = accessPath(v)
+				}
+			}
+		}
+	}
+	if !ExplorePaths(lexValue, o) {
+		r.Undecide("R14g: path exploration of %s exceeded its state bound", key)
+		return
+	}
+	for i, e := range emits {
+		if !reached[i] {
+			continue
+		}
+		n++
+		site := ord.key(key, "raw-emit", "")
+		pos := c.Pos(c.InstrPos(e.call))
+		if why, isBad := bad[i]; isBad {
+			r.Instance("R14g", site, pos, "finding", "raw value is "+why, true)
+			r.Report(Finding{Rule: "R14g", Site: site, Pos: pos,
+				Msg: key + ": on a path that emits a raw string (AllowEscapes = false) the value is " + why + ", not a plain substring of the input: the text of a raw literal is altered by the lexer (e.g. backslashes inserted before double quotes)"})
+		} else {
+			r.Instance("R14g", site, pos, "ok", "on every path emitting a raw string the value is a substring of the input", true)
+		}
+	}
+	r.Floor("R14g", n, 1)
 }
